@@ -180,8 +180,30 @@ def _copy_only(ck, p, byk):
         for bi, t in b.calls():
             if method(t) in ("map", "map_while", "filter_map", "flat_map", "scan", "fold", "for_each", "retain", "retain_mut", "dedup_by", "fill", "fill_with", "swap", "reverse", "sort", "rotate_left", "rotate_right", "make_ascii_uppercase", "make_ascii_lowercase"):
                 bad.append((t["ln"], "a %s over the characters" % method(t)))
+    # order: characters put in one at a time inside a loop must go to a position that moves with the loop
+    from ..cfg import Cfg
+    cfg_ = Cfg(f)
+    pvf = Prov(f)
+    for h, body in cfg_.natural_loops().items():
+        for bi, t in f.calls():
+            if bi in body and method(t) in ("insert", "push_front") and len(t["args"]) >= 2:
+                if method(t) == "push_front":
+                    bad.append((t["ln"], "pushed to the front one by one inside a loop (the characters come out in reverse order)"))
+                    continue
+                roots = roots_of(f, pvf, t["args"][1])
+                moving = any(o[0] == "call" and o[1] in body and last(norm(o[3] or o[2] or "")) in ("next", "len") for o in roots)
+                pl = place_of(t["args"][1])
+                if pl:
+                    moving = moving or any(b2 in body for (b2, si, k, x) in pvf.defs.get(pl[0], []) if k == "assign" and x["rv"]["k"] in ("bin", "checked"))
+                    # a plain copy of a loop-updated local
+                    for (b2, si, k, x) in pvf.defs.get(pl[0], []):
+                        if k == "assign" and x["rv"]["k"] == "use" and place_of(x["rv"]["op"]):
+                            src = place_of(x["rv"]["op"])[0]
+                            moving = moving or any(b3 in body and k3 == "assign" and x3["rv"]["k"] in ("bin", "checked", "use") and b3 != b2 for (b3, s3, k3, x3) in pvf.defs.get(src, []) if len(pvf.defs.get(src, [])) > 1)
+                if not moving:
+                    bad.append((t["ln"], "inserted at the same position on every iteration of a loop (a multi-character insertion comes out in reverse order)"))
     if bad:
-        ck.refuted(rule, "Suggestion::apply:stores", f.loc(bad[0][0]), "a character written into the text is %s, not a copy of an existing character or of the suggestion: applying the suggestion changes text it was not asked to change" % bad[0][1])
+        ck.refuted(rule, "Suggestion::apply:stores", f.loc(bad[0][0]), "a character written into the text is %s: applying the suggestion does not produce prefix + replacement + suffix" % bad[0][1])
     else:
         ck.proved(rule, "Suggestion::apply:stores", f.span, "%d character stores; each copies a character of the text or of the suggestion (only index/iter/copied/split_off/extend on the way)" % n)
 
